@@ -8,6 +8,9 @@ import re
 import vlib
 from vlib import zlit
 
+# failure classes of the harness that known_findings.jsonl lists for C15 (match keys: class + mode/version/compression, see notes/conn.md section 8)
+KNOWN_CLASSES = ("v2-managed-stream-id-overflow", "v5-handshake-envelope-compressed")
+
 UNITS = "constants,crc"
 AREA = "conn"
 
@@ -22,7 +25,7 @@ MANIFEST = {
              "9-byte header with an empty body - OPTIONS, READY - in any position, stated separately for the end of a self-contained segment) with an empty "
              "accumulator at the end; what each end transmits (legacy: the plain frame; modern: one self-contained segment holding one envelope "
              "with the compression flag clear; an envelope above 131071 bytes is refused, never split); the layout switch (both ends switch at "
-             "the same envelope boundary for v5, never for v2-v4/DSE). NOT proved, exercised by the harness only: TCP, partial reads, deadlines "
+             "the same envelope boundary for v5, never for v2-v4/DSE); the server adopts the STARTUP compression name in any letter case. NOT proved, exercised by the harness only: TCP, partial reads, deadlines "
              "and the goroutine hand-off - loopback sessions of the real client and server (6 versions x compression x "
              "authentication), a raw peer on the frame and segment codecs that chooses segmentations against the real server and the real "
              "client and checks the v5 bytes they write, and the same scripts evaluated by the model inside coqc."),
@@ -217,7 +220,11 @@ def check(run):
     nontrivial = set()
     dist = {}
     samples = []
-    observations = {"startup_response_compressed": 0, "oversize_send_refused": None, "lowercase_compression_name_answered": None}
+    observations = {"startup_response_compressed": 0, "oversize_send_refused": None, "oversize_response_closes_connection": None,
+                    "lowercase_compression_name_answered": None,
+                    "v5_cannot_send_envelope_above_one_segment": None,   # limitation (no splitting on send); outside C15's quantifier ("on receive")
+                    "dual_stack_listener_bind_ok": None}                 # precondition of any exchange, not a statement of C15
+    startup_names = []      # (session id, bytes of the COMPRESSION value sent, observed class 0 none / 1 lz4 / 2 snappy / 3 no compressor: connection ended)
     corr = []
     bare_sessions = bare_envelopes = 0
     for d in results:
@@ -230,14 +237,35 @@ def check(run):
             nontrivial.add((r["mode"], r["version"], r["compression"], r["auth"], cls, r["id"].split("-")[-1] if cls else ""))
         if r["obs"].get("startup_response_compressed"):
             observations["startup_response_compressed"] += 1
-        if r["mode"] == "lowercase":
-            observations["lowercase_compression_name_answered"] = r["obs"].get("startup_answered")
+        spell = (rep.get("script") or {}).get("startup_compression") if r["mode"] == "rawclient" else None
+        if spell:
+            answered = not any(f.get("class") == "startup-case" for f in r["failures"] or [])
+            observations["lowercase_compression_name_answered"] = answered and observations["lowercase_compression_name_answered"] is not False
+            flagged = bool(r["obs"].get("startup_response_compressed"))
+            code = {"NONE": 0, "LZ4": 1, "SNAPPY": 2}.get(r["compression"], -1)
+            if not answered:
+                code = 3
+            elif flagged != (code != 0) or any(f.get("class") not in ("v5-handshake-envelope-compressed",) for f in r["failures"] or []):
+                code = -1           # answered, but the exchange that followed did not work as under that algorithm
+            startup_names.append((r["id"], list(spell.encode("utf-8")), code))
+        if r["mode"] == "unknowncomp":
+            o = r["obs"]
+            code = 3 if (not o.get("startup_answered") and o.get("connection_ended")) else \
+                (-2 if o.get("startup_response_compressed") else 0) if o.get("startup_answered") else -1   # -2: some compressor (1 or 2)
+            startup_names.append((r["id"], list(r["compression"].encode("utf-8")), code))
+            observations.setdefault("unknown_compression_name", {})[r["compression"]] = {k: o.get(k) for k in ("startup_answered", "startup_response_compressed", "connection_ended")}
+        if r["mode"] == "dualstack":
+            observations["dual_stack_listener_bind_ok"] = r["obs"].get("bind_ok")
+        if r["mode"] == "managed":
+            observations.setdefault("managed_stream_ids_sequential_requests_answered", {})["v%d" % r["version"]] = r["obs"].get("answered")
         if r["mode"] == "oversize":
-            refused = (not r["obs"].get("delivered")) and bool(r["obs"].get("client_closed"))
-            observations["oversize_send_refused"] = refused
-            if not refused and not r["failures"]:
+            o = r["obs"]
+            refused = (not o.get("delivered")) and bool(o.get("client_closed")) and bool(o.get("server_closed"))
+            observations["oversize_send_refused" if o.get("dir") == "request" else "oversize_response_closes_connection"] = refused
+            observations["v5_cannot_send_envelope_above_one_segment"] = not o.get("delivered") and observations["v5_cannot_send_envelope_above_one_segment"] is not False
+            if o.get("delivered"):
                 broken.append("correspondence: the model says an envelope above 131071 bytes cannot be sent in v5 (C15_tx_modern_large_refused); "
-                              "the implementation delivered it")
+                              "the implementation delivered it (%s)" % r["id"])
         for f in r["failures"] or []:
             if f.get("class") == "harness":
                 broken.append("harness: session %s: %s" % (r["id"], f["what"]))
@@ -266,7 +294,11 @@ def check(run):
             shards[k].append((i, c))
             weights[k] += sum(e["len"] for e in c["envs"]) + sum(e["len"] for e in (c.get("tx_frames") or []))
         for k, sh in enumerate(shards):
-            texts.append(("Cases_C15_%d" % k, HEADER + "".join(case_text("c%d" % i, c) for i, c in sh)))
+            extra = ""
+            if k == 0 and startup_names:
+                extra = "Definition startup_codes := Eval vm_compute in map (fun n => compr_code (compr_of_option n)) [%s].\nPrint startup_codes.\n" % "; ".join(
+                    "[" + "; ".join(str(x) for x in n) + "]" for _, n, _ in startup_names)
+            texts.append(("Cases_C15_%d" % k, HEADER + "".join(case_text("c%d" % i, c) for i, c in sh) + extra))
         futs = [pool.submit(vlib.coq_eval, n, t, 2400) for n, t in texts]
     elif corr:
         broken.append("correspondence not run: the model does not build")
@@ -292,6 +324,17 @@ def check(run):
             if rc != 0:
                 broken.append("correspondence file %s does not evaluate: %s" % (n, out[-600:]))
             values.update(parse_prints(out))
+        if startup_names:
+            model_codes = values.get("startup_codes")
+            if not isinstance(model_codes, list) or len(model_codes) != len(startup_names):
+                broken.append("correspondence: the model's reading of the STARTUP compression names did not evaluate: %r" % (model_codes,))
+            else:
+                for (sid, name, code), mc in zip(startup_names, model_codes):
+                    compared += 1
+                    if not (code == mc or (code == -2 and mc in (1, 2))):
+                        broken.append("correspondence: session %s: STARTUP COMPRESSION %r: the model (Conn.compr_of_option, 0 none / 1 lz4 / 2 snappy / 3 no "
+                                      "compressor) says %d, the implementation behaved as %d (-1: answered but the exchange did not work, -2: some compressor)" % (
+                                          sid, bytes(name).decode("utf-8", "replace"), mc, code))
         for i, (sid, c, rep) in enumerate(corr):
             bad = compare(c, values.get("c%d_rx" % i), values.get("c%d_tx" % i))
             compared += 1
@@ -312,7 +355,11 @@ def check(run):
         "header, a header spread over many parts with zero-length parts; envelopes that are a bare 9-byte header with an empty body - OPTIONS towards "
         "the server, READY towards the client - first, in the middle, last and alone in self-contained segments), every envelope sent must be handed "
         "to the user exactly once and in the order sent (count and order by stream id; the script ends with an envelope that has a body, so the verdict "
-        "does not wait on a timeout), chunked writes, and the v5 bytes written "
+        "does not wait on a timeout); STARTUP with the compression name in lower / mixed case (v3, v4, v5) followed by a compressed exchange; bodies "
+        "longer than their message needs (spare bytes after SUPPORTED / READY / RESULT / ERROR / EVENT and after requests, legacy framing and inside v5 "
+        "segments, cut over segments, each followed by further envelopes); a v5 envelope above one segment sent by the client / by the server: the "
+        "request must fail and BOTH connection ends must be closed; 300 strictly sequential requests with managed stream ids (v2, v3); the unframed "
+        "response to STARTUP in v5 read byte for byte as the specification says (compression flag ignored); chunked writes, and the v5 bytes written "
         "by the real side checked (handshake unframed, every segment decodes, envelopes inside have the compression flag clear); evaluations = "
         "envelopes + segments exchanged; non-trivial = a distinct (mode, version, compression, authentication, script class) session that carried an "
         "envelope above 65535 bytes, or segments, or a negotiated compression; traces validated = v5 raw sessions re-evaluated by the model "
@@ -325,8 +372,9 @@ def check(run):
     observations["bare_header_sessions"] = bare_sessions
     observations["bare_header_envelopes"] = bare_envelopes
     run.note("sessions: %d, envelopes+segments exchanged: %d, model re-evaluations: %d, v5/legacy STARTUP responses sent compressed by the server: %d, "
-             "v5 send above one segment refused: %s" % (len(results), evaluations, compared, observations["startup_response_compressed"],
-                                                        observations["oversize_send_refused"]))
+             "v5 send above one segment: request refused and both ends closed: %s, response: %s; lower/mixed-case compression names answered: %s" % (
+                 len(results), evaluations, compared, observations["startup_response_compressed"], observations["oversize_send_refused"],
+                 observations["oversize_response_closes_connection"], observations["lowercase_compression_name_answered"]))
 
     if run.tier == "thorough" and pr["ok"]:
         rc, out = vlib.coqchk("C15")
@@ -340,14 +388,21 @@ def check(run):
     reported = set()
     # the most specific failing inputs first: a raw-peer session that names the envelope and its place in the segmentation, then other
     # sessions, then model/code disagreements, then a crash / timeout of the harness process
-    findings.sort(key=lambda f: (0 if f.get("detail") else 1 if f["kind"] == "session" and f.get("mode") in ("rawclient", "rawserver") else
+    # (failures of the two classes that are recorded as known findings come last should their lines be missing from known_findings.jsonl)
+    findings.sort(key=lambda f: (5 if f.get("class") in KNOWN_CLASSES else 0 if f.get("detail") else
+                                 1 if f["kind"] == "session" and f.get("mode") in ("rawclient", "rawserver") else
                                  2 if f["kind"] == "session" else 3 if f["kind"] == "correspondence" else 4))
+
+    def known_entry(f):
+        return next((e for e in known if e.get("match") and all(f.get(a) == b or (a == "algorithm") for a, b in e["match"].items())), None)
+    for f in findings:          # one KNOWN-FINDING line per listed finding, whatever else the run reports
+        k = known_entry(f)
+        if k and k["what"] not in reported:
+            reported.add(k["what"])
+            run.known(k.get("what", f["what"]))
     for f in findings:
-        k = next((e for e in known if e.get("match") and all(f.get(a) == b or (a == "algorithm") for a, b in e["match"].items())), None)
-        if k:
-            if k["what"] not in reported:
-                reported.add(k["what"])
-                run.known(k.get("what", f["what"]))
+        if known_entry(f):
+            continue
         else:
             run.violation({"property": "C15", "failing_input": {x: y for x, y in f.items() if x != "replay"}, "replay": f.get("replay"),
                            "how_to_replay": "build/harness-conn replay <this file>  (re-runs the session: version, compression, authentication, "
